@@ -221,6 +221,7 @@ P['C17'] = dict(
   assumptions=STD_ASSUME + [EIGEN_ASSUME, 'float rounding modelled as a function fl(e)=e+eta(e), |eta|<=2^-24 M(e)'],
   harnesses=[
     dict(name='H17C', src='C17_weights.cpp', covers=['end'], defines={'VCAP': 8, 'H17C': None}, cfg=dict(fp='real', query_timeout_ms=60000), diff_samples=0, ir_srcs=ALL_IR, native_srcs=ALL_IR, native_flags=['-llemon']),
+    dict(name='H17L', src='C17_weights.cpp', covers=['end'], defines={'VCAP': 24, 'H17L': None}, cfg=dict(fp='real', fp_rel=True, query_timeout_ms=60000), diff_samples=0, ir_srcs=ALL_IR, native_srcs=ALL_IR, native_flags=['-llemon']),
     dict(name='H17B', src='C17_weights.cpp', covers=['end'], defines={'VCAP': 6, 'H17B': None}, cfg=dict(fp='real', query_timeout_ms=60000), ir_srcs=ALL_IR, native_srcs=ALL_IR, native_flags=['-llemon']),
   ])
 
@@ -254,10 +255,11 @@ P['C08'] = dict(
 P['C06'] = dict(
   design_ref='DESIGN.md section 3 C06',
   level_text='The conjugate-gradient solve is Eigen (environment contract: finite values). Decided on the real code: (E) Circuit::placeGlobal end to end on a tiny circuit with every float value unconstrained: it completes without raising an error on every explored outcome of the float comparisons, issues lower-bound and upper-bound callbacks, and no assert/contract/UB of the integer skeleton fires; (C) blendPlacement + GlobalPlacer::exportPlacement with symbolic coordinates up to 8e6: exact at blending 0 and 1, equal to (1-w)LB + w UB up to float rounding otherwise, exported integer coordinate = centre minus half size, rounded, and the float-to-int conversion cannot overflow (linear float error model).',
-  text=dict(bounds=dict(quick='E: 2 movable + 1 fixed cell, 4 rows, 3 nets of degree 1 (dangling, on a movable cell), 2 and 3, 1 step; C: 1 cell, orientation N / W / FE (centre refers to the placed size), blending in {0, 1, 0.99, 0.5, 1.5, -0.5}, |coordinates| <= 8e6, sizes <= 4096', thorough='E: 2 steps'),
+  text=dict(bounds=dict(quick='S: spreadCoordX (the coordinates the upper-bound placement exposes) on 1x1 / 2x1 bins, 3 cells, 4 concrete demand vectors incl. macro-sized ones, targets symbolic; E: 2 movable + 1 fixed cell, 4 rows, 3 nets of degree 1 (dangling, on a movable cell), 2 and 3, 1 step; C: 1 cell, orientation N / W / FE (centre refers to the placed size), blending in {0, 1, 0.99, 0.5, 1.5, -0.5}, |coordinates| <= 8e6, sizes <= 4096', thorough='E: 2 steps'),
             outside='"every upper-bound coordinate inside the placement area" and "no NaN": need the float values of spreadCells / the CG solve (declined: float kernel not closed by the error model, Eigen internals); more cells and steps'),
   assumptions=STD_ASSUME + [EIGEN_ASSUME, BOOST_ASSUME],
   harnesses=[
+    dict(name='H06S', src='C16_density.cpp', covers=['spread', 'end'], defines={'VCAP': 8, 'H16S': None, 'CONCDEM': None}, cfg=dict(fp='exact'), ir_srcs=ALL_IR, native_srcs=ALL_IR, native_flags=['-llemon', '-fsanitize=float-cast-overflow'], lib_flags=['-fsanitize=float-cast-overflow']),
     dict(name='H06C', src='C06_blend.cpp', covers=['end'], defines={'VCAP': 6}, cfg=dict(fp='real', query_timeout_ms=60000), diff_samples=0, ir_srcs=ALL_IR, native_srcs=ALL_IR, native_flags=['-llemon']),
     dict(name='H06E', src='C03_global.cpp', covers=['placeGlobal ended', 'end'], defines={'VCAP': 24, 'MAXSTEPS': 1}, cfg=dict(fp='havoc', time_budget=40), split=4, ir_srcs=ALL_IR, native_srcs=ALL_IR, native_flags=['-llemon'],
          thorough=dict(defines={'MAXSTEPS': 2}, cfg=dict(time_budget=600))),
